@@ -202,6 +202,7 @@ func GenLegalReq(t *Tape, fc byte) Req {
 		q := pickQty(t, 123)
 		r.Addr = addrFor(q)
 		r.Regs = t.Bytes(2 * q)
+		headerLikeData(t, r.Regs)
 	case 17:
 	case 23:
 		q := pickQty(t, 124)
@@ -210,6 +211,7 @@ func GenLegalReq(t *Tape, fc byte) Req {
 		wq := pickQty(t, 121)
 		r.WAddr = addrFor(wq)
 		r.Regs = t.Bytes(2 * wq)
+		headerLikeData(t, r.Regs)
 	}
 	return r
 }
@@ -241,4 +243,28 @@ func SmallReq(r *Req) {
 	if r.FC == 23 && int(r.WAddr)+200 > 65536 {
 		r.WAddr = 200
 	}
+}
+
+// headerLikeData: register values are the application's business; sometimes they spell what could be taken for a
+// complete little request frame, an exception reply or a run of zeros / 0xFF.
+func headerLikeData(t *Tape, data []byte) {
+	if len(data) < 2 || !t.Chance(1, 8) {
+		return
+	}
+	var pat []byte
+	switch t.Choose(4) {
+	case 0:
+		pat = []byte{0, 1, 0, 0, 0, 6, 1, 3, 0, 0, 0, 1} // a read-holding-registers request
+	case 1:
+		pat = []byte{0, 0, 0, 0, 0, 3, 0, 1} // registers 0, 0, 3, 1: reads like a header announcing 3 bytes
+	case 2:
+		pat = []byte{0, 2, 0, 0, 0, 3, 1, 0x83, 2} // an exception reply
+	default:
+		pat = []byte{0xFF, 0xFF, 0, 0, 0xFF, 0xFF, 0, 0}
+	}
+	off := 2 * t.Choose(len(data)/2)
+	if t.Chance(1, 2) {
+		off = 0
+	}
+	copy(data[off:], pat)
 }
